@@ -1,3 +1,4 @@
+(* C05 - preservation of Inv2: QN, PK *)
 From Coq Require Import List Arith Bool Lia.
 Import ListNotations.
 Require Import MayV.Sync.MutexModel MayV.Sync.MutexInv MayV.Sync.MutexLiveInv.
